@@ -317,14 +317,14 @@ pub fn exchange() -> impl Strategy<Value = Exchange> {
             }
             if !a.request || b.request {
                 // both same kind: rebuild from simple parts
-                let rq = H2Case { request: true, block: if a.request { a.block.clone() } else { simple_req_block() }, framing: a.framing.clone(), pre: a.pre.clone(), body: a.body.clone() };
+                let rq = H2Case { request: true, block: if a.request { a.block.clone() } else { simple_req_block() }, framing: a.framing.clone(), pre: a.pre.clone(), body: a.body.clone() , hostile_tail: vec![] };
                 let mut rs_pre = b.pre.clone();
                 if !matches!(rs_pre.first(), Some(crate::props::c16::PreFrame::Settings(_))) {
                     rs_pre.insert(0, crate::props::c16::PreFrame::Settings(vec![(3, 100)]));
                 }
                 let mut fr = b.framing.clone();
                 fr.reserved_bit = false;
-                let rs = H2Case { request: false, block: if !b.request { b.block.clone() } else { simple_resp_block() }, framing: fr, pre: rs_pre, body: b.body.clone() };
+                let rs = H2Case { request: false, block: if !b.request { b.block.clone() } else { simple_resp_block() }, framing: fr, pre: rs_pre, body: b.body.clone() , hostile_tail: vec![] };
                 return Exchange::H2 { req: rq, resp: rs };
             }
             Exchange::H2 { req: a, resp: b }
